@@ -505,6 +505,16 @@ pub fn explore(check: &'static dyn Check, seed: u64, tier: Tier, verif_dir: &str
             "reorder_by_site": agg.reorder_by_site,
             "probes": agg.probes,
             "zero_hit_probes": zero_probes,
+            "stream_transition_cells_hit": format!(
+                "{} of 16",
+                ["mplus", "mplus_dfs", "bind", "bind_dfs"]
+                    .iter()
+                    .flat_map(|op| ["empty", "unit", "lazy", "cons"].iter().map(move |v| format!("{}_{}", op, v)))
+                    .filter(|k| agg.probes.contains_key(k))
+                    .count()
+            ),
+            "seeds": [seed],
+            "seeds_per_hour": if wall > 0.0 { 3600.0 / wall } else { 0.0 },
             "workers": nworkers,
             "real_components": check.real_components(),
             "stub_components": check.stub_components(),
